@@ -17,9 +17,9 @@ Fixpoint first_nonempty_from (b : bucket) (n : nat) (start : nat) : nat :=
   end.
 
 Definition gc_check_start (b : bucket) (start : Z) : option nat :=
-  if (start <? 0)%Z then Some (first_nonempty_from b NCH (b_nextgc b))
+  if (start <? 0)%Z then Some (first_nonempty_from b (b_head b) (b_nextgc b))
   else if (Z.of_nat (b_head b) <? start)%Z then None
-  else Some (first_nonempty_from b NCH (Z.to_nat start)).
+  else Some (first_nonempty_from b (b_head b) (Z.to_nat start)).
 
 (* first record timestamp of a chunk file (getFirstRecTs) *)
 Definition first_ts (k : chunk) : option N :=
@@ -45,7 +45,7 @@ Fixpoint gc_check_end_loop (cf : cfg) (b : bucket) (n : nat) (next : Z) (start :
            | None => RangeErr 4
            | Some ts =>
              if (days * 86400 <? now - Z.of_N ts)%Z then
-               let e := last_nonempty_down b NCH (next - 1)%Z start in
+               let e := last_nonempty_down b (S (b_head b)) (next - 1)%Z start in
                if (e <? Z.of_nat start)%Z then RangeErr 3 else RangeOK start (Z.to_nat e)
              else gc_check_end_loop cf b k (next - 1)%Z start days now
            end
@@ -57,7 +57,7 @@ Definition gc_check_range (cf : cfg) (b : bucket) (s e days now : Z) : rangeres 
   | Some start =>
     let e' := if (e <? 0)%Z || (Z.of_nat (b_head b) - 1 <=? e)%Z then (Z.of_nat (b_head b) - 1)%Z else e in
     let days' := if (days <? 0)%Z then c_nogcdays cf else days in
-    gc_check_end_loop cf b (S NCH) (e' + 1)%Z start days' now
+    gc_check_end_loop cf b (S (S (b_head b))) (e' + 1)%Z start days' now
   end.
 
 (* ---------------------------------------------------------------- pass *)
